@@ -494,6 +494,7 @@ def run(ctx):
                             "single-crystal lines with noise mapped into {0, 0.02} + 10 monolayer lines), thorough adds a random sample of the full enumeration; "
                             "distinct non-trivial = distinct (prototype, shape class, space group, formula units in the prototype cell, finder builder) among "
                             "members on which the whole predicate was evaluated and held")
+    ctx.coverage["failing_member_keys"] = sorted(m["key"] for m, r, info in fails)
     ctx.coverage["predicate_failures"] = [{"key": m["key"], "clauses": info} for m, r, info in fails[:20]]
     for (m, r, info) in fails[:3]:
         c0 = (r.get("clusters") or [{}])[0]
